@@ -128,7 +128,12 @@ def handlers : List (String × Handler) := [
     let r := getCoordinates g (← getInt j "k") (ctOf (← getStr j "ct"))
     pure (exceptToJson (fun (a : Annot Int) => Json.arr (a.map intsToJson).toArray) r)),
   ("history", fun j => do
-    let g : Group Int := { gtype := ← getStr j "gtype", enc := ← parseEnc (← j.getObjVal? "enc"), cache := none }
+    -- "via": coordinate type of the instance the group was parsed with (annread / SOP from_dataset); absent for a group
+    -- parsed on its own
+    let g0 : Group Int := { gtype := ← getStr j "gtype", enc := ← parseEnc (← j.getObjVal? "enc"), cache := none }
+    let g : Group Int := match j.getObjVal? "via" with
+      | .ok (.str t) => parseVia (ctOf t) g0
+      | _ => parse g0
     let accs ← (← getArr j "accesses").toList.mapM (fun a => do
       let p ← a.getArr?
       match p.toList with
